@@ -9,6 +9,7 @@ import (
 	"os"
 	"time"
 
+	"verif/harness/concd"
 	"verif/harness/morassd"
 	"verif/harness/vt"
 )
@@ -26,6 +27,7 @@ func main() {
 	conc := fs.Bool("conc", false, "force concurrent mode")
 	big := fs.Bool("big", false, "include large sizes")
 	tmo := fs.Int("timeout-ms", 5000, "arrival timeout for gated replays")
+	skip := fs.Int("skip", 0, "schedules to skip")
 	kd := fs.Int("kd", 8, "key divisor used by the model that emitted -in")
 	fs.Parse(os.Args[3:])
 	_ = in
@@ -46,6 +48,23 @@ func main() {
 		morassd.ConcTraces(w, vt.Rand(*seed, "morassconc"), *n)
 		w.Close()
 		fmt.Printf("runs=%d events=%d\n", *n, w.N)
+	case "conc/map":
+		w := vt.Create(*out)
+		concd.MapCalls(w, vt.Rand(*seed, "map"), *n, true)
+		w.Close()
+		fmt.Printf("calls=%d\n", w.N)
+	case "conc/procrun":
+		w := vt.Create(*out)
+		concd.ProcRuns(w, vt.Rand(*seed, "procrun"), *n)
+		w.Close()
+		fmt.Printf("runs=%d\n", w.N)
+	case "conc/promise":
+		w := vt.Create(*out)
+		concd.PromiseRandom(w, vt.Rand(*seed, "promise"), *n)
+		w.Close()
+		fmt.Printf("executions=%d\n", *n)
+	case "conc/procsched":
+		concd.ReplayProc(*in, *out, *skip, time.Duration(*tmo)*time.Millisecond)
 	case "morass/faults":
 		w := vt.Create(*out)
 		morassd.Faults(w, vt.Rand(*seed, "morassfault"), *n)
